@@ -1127,7 +1127,7 @@ def _sle():
             return None
         o, x, b = t
         r = ctx.rnd
-        a = {"which": r.choice(("als", "mals")), "repeats": r.randint(1, 2), "solver": r.choice(("solve", "lu"))}
+        a = {"which": r.choice(("als", "mals")), "repeats": r.choice((0, 1, 1, 1, 2)), "solver": r.choice(("solve", "lu"))}
         if a["which"] == "mals":
             a["threshold"] = r.choice((1e-12, 1e-6))
             a["max_rank"] = r.choice((None, 2, 4))
@@ -1187,7 +1187,7 @@ def _power():
         if r.random() < 0.25:
             L = [i for i in ctx.live() if ctx.meta(i)[1] == ctx.meta(o)[1] and ctx.meta(i)[2] == ctx.meta(o)[2] and closed(ctx.meta(i))]
             ins["operator_gevp"] = r.choice(L)
-        return {"op": "evp_power", "in": ins, "dest": ctx.dest(1), "args": {"repeats": r.randint(1, 3), "sigma": r.choice((0.999, 0.3))}}
+        return {"op": "evp_power", "in": ins, "dest": ctx.dest(1), "args": {"repeats": r.choice((1, 1, 2, 3)), "sigma": r.choice((0.999, 0.3))}}
 
     def execute(run, rec, A, g):
         import scikit_tt.solvers.evp as evp
@@ -1199,7 +1199,8 @@ def _power():
 
 
 def _steps(r):
-    return [round(r.uniform(0.01, 0.2), 3) for _ in range(r.randint(1, 3))]
+    # degenerate counts (no step at all) are part of the input space: the trajectory is then just [initial_value]
+    return [round(r.uniform(0.01, 0.2), 3) for _ in range(r.choice((0, 1, 1, 2, 3)))]
 
 
 @op("ode_onestep", roles=("operator", "initial_value", "initial_guess", "previous_value", "op_hod"), group="ode", weight=3.0, returns_initial=True)
@@ -1220,7 +1221,7 @@ def _ode_onestep():
             a["max_rank"] = r.choice((50, 3, 1))
         if which == "hod":
             a["step_size"] = round(r.uniform(0.01, 0.2), 3)
-            a["number_of_steps"] = r.randint(1, 3)
+            a["number_of_steps"] = r.choice((0, 1, 2, 3))
             a["order"] = r.choice((2, 4, 3))
             if r.random() < 0.5:
                 ins["previous_value"] = gss
@@ -1228,7 +1229,7 @@ def _ode_onestep():
                 ins["op_hod"] = o
         if which in ("implicit_euler", "trapezoidal_rule"):
             ins["initial_guess"] = gss
-            a["repeats"] = r.randint(1, 2)
+            a["repeats"] = r.choice((0, 1, 1, 2))
             a["tt_solver"] = r.choice(("als", "mals"))
             a["micro_solver"] = r.choice(("solve", "lu"))
             a["threshold"] = 1e-12
@@ -1301,7 +1302,7 @@ def _ode_tdvp():
         o, x, _ = t
         r = ctx.rnd
         a = {"which": r.choice(("tdvp1site", "tdvp2site", "tdvp", "krylov")), "step_size": round(r.uniform(0.01, 0.2), 3),
-             "number_of_steps": r.randint(1, 2), "normalize": r.choice((0, 0, 2)), "threshold": r.choice((1e-12, 1e-6)),
+             "number_of_steps": r.choice((0, 1, 1, 2)), "normalize": r.choice((0, 0, 2)), "threshold": r.choice((1e-12, 1e-6)),
              "max_rank": r.choice((50, 3)), "dimension": r.randint(2, 3)}
         return {"op": "ode_tdvp", "in": {"operator": o, "initial_value": x}, "dest": ctx.dest(3), "args": a}
 
@@ -1332,7 +1333,7 @@ def _ode_splitting():
             return None
         r = ctx.rnd
         args = {"which": r.choice(("lie", "strang", "yoshida", "kahan_li")), "hom": r.random() < 0.5, "rank": r.randint(1, 2),
-                "step_size": round(r.uniform(0.01, 0.1), 3), "number_of_steps": r.randint(1, 2), "threshold": r.choice((1e-12, 1e-6)),
+                "step_size": round(r.uniform(0.01, 0.1), 3), "number_of_steps": r.choice((0, 1, 1, 2)), "threshold": r.choice((1e-12, 1e-6)),
                 "max_rank": r.choice((50, 2)), "normalize": r.choice((0, 1, 2)), "cplx": r.random() < 0.3}
         return {"op": "ode_splitting", "in": {"initial_value": a}, "dest": ctx.dest(3), "args": args}
 
